@@ -1,3 +1,5 @@
+//go:build test && verif
+
 package suites
 
 // C17, client side (suite "migrate"): sync replies delivered to a real client by
